@@ -114,6 +114,7 @@ def run_one(tape: Any, cfg: Dict[str, Any], forbid: FrozenSet[str] = frozenset()
                         script += [('at', t), ('send', b'c' * (1 + tape.draw(40, 'n')), 'burst')]
                     elif act == 'o_send':
                         oscript += [('at', t), ('send', b'o' * (1 + tape.draw(40, 'n')), 'burst')]
+                        w.probe('upstream_only_activity')
                     else:
                         pl = [T - 0.5, T + 0.5, T + 2.5][tape.draw(3, 'pauselen')]
                         if pl > T:
